@@ -29,6 +29,16 @@
 //	        alternative spellings of the same version, chosen independently per event (npm
 //	        v1.0.0, 1.0.0+build; Maven/PyPI 1.0, 1; likewise for 2.0.0), every list of phase A,
 //	        every spelling assignment, every permutation
+//	phase F the zero zone: ranges over a ladder b1 < b2 < zero < 1.0.0 < 2.0.0 (b1, b2 valid versions
+//	        below zero: npm 0.0.0-alpha/-beta, Maven 0-alpha/0-beta, PyPI 0.dev0/0a1; plus the
+//	        sentinel introduced "0"), version zero written in events as 0.0.0 / 0.0 / 00 (npm:
+//	        0.0.0 / v0.0.0 / 0.0.0+build), every list of <= 4 / <= 5 events, every spelling, every
+//	        permutation; queried with b1, b2, every spelling of zero INCLUDING the literal "0"
+//	        (Maven, PyPI), and versions around 1.0.0 / 2.0.0
+//	phase G explicit `versions` lists holding strings an ecosystem grammar rejects ("2004d",
+//	        "0.1dev-r1716", ...), queried with that same string: alone, among others, in a second
+//	        entry, next to decoy entries, next to every permuted range of <= 2 events of every type
+//	        (listed => affected); and not listed with no range at all (=> not affected)
 //	phase D explicit `versions` lists (every subset of size <= 2 of the probe set) alone or
 //	        next to a range (<= 2 / <= 3 events, permuted) of type ECOSYSTEM / GIT
 //
@@ -56,6 +66,12 @@
 //     ("1.0.0" listed, "1.0" queried) when no range makes the version affected: the specification
 //     does not say whether the list is matched by string or by version equality — skipped, counted
 //     in coverage key dont_care_skipped.
+//   - Maven "00": the deps.dev Maven comparison that IsAffected relies on orders it inconsistently
+//     (00 == 0, 00 == 0-alpha, 00 == 0-beta, yet 0-alpha < 0-beta < 0); that is a property of the
+//     external comparison (C07's subject), not of the range evaluation, so "00" is used for PyPI only.
+//     npm "0" / "0.0" / "00" are not valid semver; npm is queried with 0.0.0 and 0.0.0+build instead.
+//   - a version the ecosystem cannot parse that is NOT listed explicitly while ranges are present
+//     (phase G only generates: listed explicitly => affected; not listed and no range => not affected).
 //   - package names differing only by case / PEP 503 normalisation, ecosystem strings with a
 //     ":suffix" (decoys use clearly different names and the three plain ecosystem names).
 package main
@@ -146,6 +162,28 @@ func refParse(s string) (ver, bool) {
 var verCache = map[string]ver{} // filled in init, read-only afterwards
 
 func parses(s string) bool { _, ok := refParse(s); return ok }
+
+// known reports whether the reference comparison can order s.
+func known(s string) bool { _, ok := verCache[s]; return ok || parses(s) }
+
+// decidableWithoutOrder reports whether the verdict for c follows from string equality alone:
+// the version is listed explicitly by an entry for the package, or no entry for the package has
+// any range.
+func decidableWithoutOrder(c *rCase) bool {
+	ranges := false
+	for _, a := range c.Affected {
+		if a.Ecosystem != c.Ecosystem || a.Name != c.Name {
+			continue
+		}
+		for _, lv := range a.Versions {
+			if lv == c.Version {
+				return true
+			}
+		}
+		ranges = ranges || len(a.Ranges) > 0
+	}
+	return !ranges
+}
 
 func mustVer(s string) ver {
 	if v, ok := verCache[s]; ok {
@@ -380,6 +418,11 @@ var ladder = []string{"1.0.0", "1.0.2", "1.1.0", "1.10.0", "2.0.0", "10.0.0"}
 var gapProbes = []string{"0.9.0", "1.0.1", "1.0.10", "1.2.0", "1.11.0", "9.0.0", "11.0.0"}
 var aliasProbes = []string{"1.0", "2"} // Maven, PyPI only
 
+// weird are version strings that at least one ecosystem's grammar rejects (legacy PyPI releases
+// and the like). Phase G only uses them where the verdict does not depend on any ordering: the
+// explicit `versions` list is matched by string equality.
+var weird = []string{"2004d", "0.1dev-r1716", "1.0-SNAPSHOT", "not a version"}
+
 type ecoT struct {
 	osv     string
 	sys     resolve.System
@@ -390,17 +433,36 @@ type ecoT struct {
 	// Every spelling is the same version under the ecosystem's rules (and under deps.dev semver,
 	// which IsAffected uses): npm ignores a leading "v" and build metadata, Maven and PEP 440
 	// ignore trailing zero components.
-	spell   map[int][]string
-	types   []string
-	probes  []string
-	pkgs    []*extractor.Package
-	isAlias []bool
+	spell map[int][]string
+	// zero zone (phase F): zlad is a 5-step ladder b1 < b2 < zero < 1.0.0 < 2.0.0 where b1, b2 are
+	// valid versions of the ecosystem below version zero; zspell[3] are the spellings of version
+	// zero usable in EVENTS (never the literal "0", which as `introduced` is the sentinel and is
+	// not defined by the specification for closers); zq are the queried versions of phase F,
+	// including the literal "0" where the ecosystem accepts it.
+	zlad   []string
+	zspell map[int][]string
+	zq     []string
+	// allProbes = probes (phases A-E) + the extra queried versions of phases F and G; pkgs
+	// parallels allProbes. zqIdx / weirdIdx index into allProbes.
+	allProbes []string
+	zqIdx     []int
+	weirdIdx  []int
+	types     []string
+	probes    []string
+	pkgs      []*extractor.Package
+	isAlias   []bool
 }
 
 var ecos = []*ecoT{
-	{osv: "npm", sys: resolve.NPM, name: "left-pad", other: "right-pad", preZero: "0.0.0-alpha", spell: map[int][]string{1: {"1.0.0", "v1.0.0", "1.0.0+build"}, 5: {"2.0.0", "v2.0.0", "2.0.0+build"}}, types: []string{"ECOSYSTEM", "SEMVER", "GIT"}},
-	{osv: "Maven", sys: resolve.Maven, name: "com.example:alpha", other: "com.example:beta", preZero: "0-alpha", spell: map[int][]string{1: {"1.0.0", "1.0", "1"}, 5: {"2.0.0", "2.0", "2"}}, types: []string{"ECOSYSTEM", "GIT"}},
-	{osv: "PyPI", sys: resolve.PyPI, name: "alpha-lib", other: "beta-lib", preZero: "0.dev0", spell: map[int][]string{1: {"1.0.0", "1.0", "1"}, 5: {"2.0.0", "2.0", "2"}}, types: []string{"ECOSYSTEM", "GIT"}},
+	{osv: "npm", sys: resolve.NPM, name: "left-pad", other: "right-pad", preZero: "0.0.0-alpha", spell: map[int][]string{1: {"1.0.0", "v1.0.0", "1.0.0+build"}, 5: {"2.0.0", "v2.0.0", "2.0.0+build"}},
+		zlad: []string{"0.0.0-alpha", "0.0.0-beta", "0.0.0", "1.0.0", "2.0.0"}, zspell: map[int][]string{3: {"0.0.0", "v0.0.0", "0.0.0+build"}},
+		zq: []string{"0.0.0-alpha", "0.0.0-beta", "0.0.0", "0.0.0+build", "0.9.0", "1.0.0", "1.0.2", "2.0.0", "9.0.0"}, types: []string{"ECOSYSTEM", "SEMVER", "GIT"}},
+	{osv: "Maven", sys: resolve.Maven, name: "com.example:alpha", other: "com.example:beta", preZero: "0-alpha", spell: map[int][]string{1: {"1.0.0", "1.0", "1"}, 5: {"2.0.0", "2.0", "2"}},
+		zlad: []string{"0-alpha", "0-beta", "0.0.0", "1.0.0", "2.0.0"}, zspell: map[int][]string{3: {"0.0.0", "0.0"}},
+		zq: []string{"0-alpha", "0-beta", "0", "0.0", "0.0.0", "0.9.0", "1.0.0", "1.0.2", "2.0.0", "9.0.0"}, types: []string{"ECOSYSTEM", "GIT"}},
+	{osv: "PyPI", sys: resolve.PyPI, name: "alpha-lib", other: "beta-lib", preZero: "0.dev0", spell: map[int][]string{1: {"1.0.0", "1.0", "1"}, 5: {"2.0.0", "2.0", "2"}},
+		zlad: []string{"0.dev0", "0a1", "0.0.0", "1.0.0", "2.0.0"}, zspell: map[int][]string{3: {"0.0.0", "0.0", "00"}},
+		zq: []string{"0.dev0", "0a1", "0", "0.0", "0.0.0", "00", "0.9.0", "1.0.0", "1.0.2", "2.0.0", "9.0.0"}, types: []string{"ECOSYSTEM", "GIT"}},
 }
 
 func initSpace() {
@@ -423,9 +485,17 @@ func initSpace() {
 		e.probes = append(append([]string{}, ladder...), gapProbes...)
 		// one pre-release of version zero: below every ladder version and below 0.0.0 in its
 		// ecosystem, preceded only by the special introduced "0". The reference comparison
-		// represents it as (-1,0,0); it is never used as an event version.
+		// represents it as (-2,0,0); outside phase F it is never used as an event version.
 		e.probes = append(e.probes, e.preZero)
-		verCache[e.preZero] = ver{-1, 0, 0}
+		if e.zlad[0] != e.preZero || e.zlad[2] != e.zspell[3][0] {
+			fmt.Fprintln(os.Stderr, "C18 harness error: zero-zone tables inconsistent")
+			os.Exit(3)
+		}
+		verCache[e.zlad[0]] = ver{-2, 0, 0}
+		verCache[e.zlad[1]] = ver{-1, 0, 0}
+		for _, z := range append(append([]string{}, e.zspell[3]...), "0", "0.0", "0.0.0", "00") {
+			verCache[z] = ver{0, 0, 0}
+		}
 		// alternative spellings are, by definition here, the ladder version they spell
 		for pos, sp := range e.spell {
 			if sp[0] != ladder[pos-1] {
@@ -439,7 +509,27 @@ func initSpace() {
 		if e.osv != "npm" {
 			e.probes = append(e.probes, aliasProbes...)
 		}
-		for _, p := range e.probes {
+		e.allProbes = append([]string{}, e.probes...)
+		idxOf := func(v string) int {
+			for i, p := range e.allProbes {
+				if p == v {
+					return i
+				}
+			}
+			e.allProbes = append(e.allProbes, v)
+			return len(e.allProbes) - 1
+		}
+		for _, q := range e.zq {
+			if _, ok := verCache[q]; !ok {
+				fmt.Fprintf(os.Stderr, "C18 harness error: zero-zone query %q unknown to the reference comparison\n", q)
+				os.Exit(3)
+			}
+			e.zqIdx = append(e.zqIdx, idxOf(q))
+		}
+		for _, w := range weird {
+			e.weirdIdx = append(e.weirdIdx, idxOf(w))
+		}
+		for _, p := range e.allProbes {
 			e.pkgs = append(e.pkgs, guidedremediation.VerifVKToPackage(resolve.VersionKey{
 				PackageKey:  resolve.PackageKey{System: e.sys, Name: e.name},
 				VersionType: resolve.Concrete, Version: p}))
@@ -458,10 +548,12 @@ type pe struct {
 	pos  int
 }
 
-func (p pe) event() rEvent {
+func (p pe) event() rEvent { return p.eventOn(ladder) }
+
+func (p pe) eventOn(lad []string) rEvent {
 	s := "0"
 	if p.pos > 0 {
-		s = ladder[p.pos-1]
+		s = lad[p.pos-1]
 	}
 	switch p.kind {
 	case 'i':
@@ -490,9 +582,11 @@ func canonStr(evs []pe) string {
 
 // genCanon enumerates every well-formed list of length 1..maxLen in canonical (sorted) order,
 // shortest first.
-func genCanon(maxLen int) []*canon {
+func genCanon(maxLen int) []*canon { return genCanonN(len(ladder), maxLen) }
+
+// genCanonN does the same over an abstract ladder of n positions.
+func genCanonN(n, maxLen int) []*canon {
 	var out []*canon
-	n := len(ladder)
 	var rec func(cur []pe, want int)
 	rec = func(cur []pe, want int) {
 		if len(cur) == want {
@@ -590,6 +684,29 @@ func (c *canon) listedSpelled(e *ecoT, perm []int, sp []int) []rEvent {
 	return out
 }
 
+// listedZone lists a canonical list over the ecosystem's zero-zone ladder, version zero written
+// as spelling sp[k] of e.zspell.
+func (c *canon) listedZone(e *ecoT, perm []int, sp []int) []rEvent {
+	out := make([]rEvent, len(perm))
+	for i, k := range perm {
+		p := c.evs[k]
+		out[i] = p.eventOn(e.zlad)
+		if sp[k] == 0 {
+			continue
+		}
+		s := e.zspell[p.pos][sp[k]]
+		switch p.kind {
+		case 'i':
+			out[i].Introduced = s
+		case 'f':
+			out[i].Fixed = s
+		default:
+			out[i].LastAffected = s
+		}
+	}
+	return out
+}
+
 func (c *canon) listed(perm []int) []rEvent {
 	out := make([]rEvent, len(perm))
 	for i, k := range perm {
@@ -630,10 +747,11 @@ var (
 	gAffected, gNotAffected, gSkipped atomic.Int64
 	gPermLists                        atomic.Int64
 	gSpelledLists                     atomic.Int64
-	gPhaseEvals                       [7]atomic.Int64 // A, B, C1, C2, D, D0, E
+	gZoneLists                        atomic.Int64
+	gPhaseEvals                       [9]atomic.Int64 // A, B, C1, C2, D, D0, E, F, G
 )
 
-var phaseNames = []string{"A", "B", "C1", "C2", "D", "D0", "E"}
+var phaseNames = []string{"A", "B", "C1", "C2", "D", "D0", "E", "F", "G"}
 
 func safeCall(v *osvschema.Vulnerability, pkg *extractor.Package) (got bool, panicked any, stack string) {
 	defer func() {
@@ -659,7 +777,7 @@ type fcase struct {
 }
 
 func (c fcase) toRCase(e *ecoT, pi int) *rCase {
-	out := &rCase{Phase: c.phase, Ecosystem: e.osv, Name: e.name, Version: e.probes[pi], Affected: []rAffected{}}
+	out := &rCase{Phase: c.phase, Ecosystem: e.osv, Name: e.name, Version: e.allProbes[pi], Affected: []rAffected{}}
 	for _, a := range c.aff {
 		ra := rAffected{Ecosystem: a.Package.Ecosystem, Name: a.Package.Name}
 		if a.Versions != nil {
@@ -682,7 +800,7 @@ func rg(typ string, evs []rEvent) osvschema.Range {
 }
 
 func pkgFor(eco *ecoT, version string) *extractor.Package {
-	for i, p := range eco.probes {
+	for i, p := range eco.allProbes {
 		if p == version {
 			return eco.pkgs[i]
 		}
@@ -748,6 +866,9 @@ func causeKey(c *rCase, eco *ecoT, got, want bool) string {
 	}
 	// (2) a single range of the queried package that is itself misjudged
 	for _, a := range own {
+		if !known(c.Version) {
+			break // phase G: no range is ever evaluated for such a version
+		}
 		for _, rg := range a.Ranges {
 			c1 := rCase{Phase: "attr", Ecosystem: c.Ecosystem, Name: c.Name, Version: c.Version,
 				Affected: []rAffected{{Ecosystem: a.Ecosystem, Name: a.Name, Ranges: []rRange{rg}}}}
@@ -793,7 +914,7 @@ type runner struct {
 
 // check executes one case; returns the oracle verdict.
 func (x *runner) check(fc fcase, eco *ecoT, pi int, st *stats) bool {
-	want := specAffectedOSV(eco.osv, eco.name, eco.probes[pi], fc.aff)
+	want := specAffectedOSV(eco.osv, eco.name, eco.allProbes[pi], fc.aff)
 	st.vuln.ID = "VERIF-C18"
 	st.vuln.Affected = fc.aff
 	got, pv, stack := safeCall(&st.vuln, eco.pkgs[pi])
@@ -924,6 +1045,22 @@ func main() {
 	// phase D0 / C0: entries without any range (one item per ecosystem)
 	for _, e := range ecos {
 		items = append(items, workItem{"D0", e, nil})
+		items = append(items, workItem{"G", e, nil})
+	}
+	// phase F: the zero zone
+	zcanons := genCanonN(5, maxLen)
+	for _, c := range zcanons {
+		for _, e := range ecos {
+			items = append(items, workItem{"F", e, c})
+			// oracle self-check on the zero zone as well
+			evs := c.listedZone(e, perms(len(c.evs))[0], make([]int, len(c.evs)))
+			for _, q := range e.zq {
+				if specScan(evs, q) != declAffected(evs, q) {
+					fmt.Fprintf(os.Stderr, "C18 harness error: the two reference formulations disagree on zone list %s @ %s (%s)\n", c.str, q, e.osv)
+					os.Exit(3)
+				}
+			}
+		}
 	}
 	order := make([]int, len(items))
 	for i := range order {
@@ -1184,6 +1321,99 @@ func main() {
 					}
 				}
 			}
+		case "F":
+			// zero zone: ranges over b1 < b2 < zero < 1.0.0 < 2.0.0 with version zero spelled in every
+			// way (never "0") in events, queried with every spelling of zero including "0"
+			var at []int
+			for k, pv := range it.c.evs {
+				if len(e.zspell[pv.pos]) > 1 {
+					at = append(at, k)
+				}
+			}
+			matchTypes := []string{"ECOSYSTEM"}
+			if e.osv == "npm" {
+				matchTypes = append(matchTypes, "SEMVER")
+			}
+			sp := make([]int, len(it.c.evs))
+			for {
+				if e == ecos[0] {
+					gZoneLists.Add(1)
+				}
+				for pn, pm := range perms(len(it.c.evs)) {
+					l1 := it.c.listedZone(e, pm, sp)
+					for _, typ := range matchTypes {
+						for _, pi := range e.zqIdx {
+							c := mk("F", pi, own(nil, rg(typ, l1)))
+							w := x.check(c, e, pi, &st)
+							if pn == 0 {
+								distinct++
+							}
+							if pn == len(perms(len(it.c.evs)))-1 && e.allProbes[pi] == e.zq[2] && typ == "ECOSYSTEM" && it.c.str == "i1f4" {
+								sample(c.toRCase(e, pi), w)
+							}
+						}
+					}
+				}
+				i := 0
+				for ; i < len(at); i++ {
+					k := at[i]
+					sp[k]++
+					if sp[k] < len(e.zspell[it.c.evs[k].pos]) {
+						break
+					}
+					sp[k] = 0
+				}
+				if i == len(at) {
+					break
+				}
+			}
+		case "G":
+			// versions the ecosystem's grammar may reject, decided by string equality only: listed
+			// explicitly => affected, whatever ranges stand next to the list; not listed and no
+			// range in any entry for the package => not affected. (Not listed + ranges: don't-care.)
+			decoys := [][2]string{{e.osv, e.other}}
+			for _, o := range otherEcos(e) {
+				decoys = append(decoys, [2]string{o.osv, e.name}, [2]string{o.osv, o.name})
+			}
+			all := rg("ECOSYSTEM", []rEvent{{Introduced: "0"}})
+			for wi, pi := range e.weirdIdx {
+				u := e.allProbes[pi]
+				u2 := weird[(wi+1)%len(weird)]
+				u3 := weird[(wi+2)%len(weird)]
+				one := func(aff ...osvschema.Affected) {
+					w := x.check(mk("G", pi, aff...), e, pi, &st)
+					distinct++
+					if wi == 0 && len(aff) == 1 && len(aff[0].Ranges) == 1 && len(aff[0].Ranges[0].Events) == 2 && aff[0].Ranges[0].Type == "ECOSYSTEM" {
+						sample(fcase{"G", aff}.toRCase(e, pi), w)
+					}
+				}
+				// listed
+				one(own([]string{u}))
+				one(own([]string{u2, u, "1.0.0"}))
+				one(own([]string{"1.0.0", "2.0.0", u}))
+				one(own([]string{u2}), own([]string{u}))
+				one(own([]string{u}), own([]string{u2}))
+				one(own(nil), own([]string{u}))
+				for _, d := range decoys {
+					one(own([]string{u}), entry(d[0], d[1], nil, all))
+					one(entry(d[0], d[1], nil, all), own([]string{u}))
+				}
+				for _, s2 := range seconds {
+					for _, typ := range e.types {
+						one(own([]string{u}, rg(typ, s2.evs)))
+						one(own([]string{u2, u}, rg(typ, s2.evs), rg("GIT", s2.evs)))
+					}
+				}
+				// not listed, no range in any entry for the package
+				one(own([]string{u2}))
+				one(own([]string{u2, u3, "1.0.0"}))
+				one(own(nil), own([]string{u3}))
+				for _, d := range decoys {
+					one(entry(d[0], d[1], []string{u}, all))
+					one(own([]string{u2}), entry(d[0], d[1], []string{u}, all))
+					one(entry(d[0], d[1], []string{u}), own(nil))
+				}
+			}
 		case "D0":
 			// no ranges at all: versions list alone; also an entry with neither; also decoy-only records
 			subs := subsets(len(e.probes))
@@ -1255,6 +1485,11 @@ func main() {
 	r.Set("permuted_event_lists", gPermLists.Load()/3)
 	r.Set("distinct_single_range_cells", distinctA.Load())
 	r.Set("respelled_event_lists", gSpelledLists.Load())
+	r.Set("zero_zone_event_lists", gZoneLists.Load())
+	r.Set("zero_zone", map[string]any{"npm": map[string]any{"ladder": ecos[0].zlad, "zero_spellings_in_events": ecos[0].zspell[3], "queried": ecos[0].zq},
+		"Maven": map[string]any{"ladder": ecos[1].zlad, "zero_spellings_in_events": ecos[1].zspell[3], "queried": ecos[1].zq},
+		"PyPI":  map[string]any{"ladder": ecos[2].zlad, "zero_spellings_in_events": ecos[2].zspell[3], "queried": ecos[2].zq}})
+	r.Set("unparsable_version_strings", weird)
 	r.Set("event_spellings", map[string]map[int][]string{"npm": ecos[0].spell, "Maven": ecos[1].spell, "PyPI": ecos[2].spell})
 	byPhase := map[string]int64{}
 	for i, n := range phaseNames {
@@ -1299,7 +1534,7 @@ func replay(file string) int {
 		return 3
 	}
 	// every version in the record must be one the reference comparison understands
-	if _, ok := verCache[c.Version]; !ok && !parses(c.Version) {
+	if !known(c.Version) && !decidableWithoutOrder(c) {
 		fmt.Fprintf(os.Stderr, "replay: version %q outside the reference comparison's domain\n", c.Version)
 		return 3
 	}
